@@ -225,3 +225,20 @@ func (p *Prog) SSA() (*ssa.Program, map[string]*ssa.Package) {
 	}
 	return prog, p.ssaPkgs
 }
+
+// FuncName2 names a function declaration without type information.
+func FuncName2(fd *ast.FuncDecl) string {
+	if fd == nil {
+		return "?"
+	}
+	if fd.Recv != nil && len(fd.Recv.List) == 1 {
+		t := fd.Recv.List[0].Type
+		if s, ok := t.(*ast.StarExpr); ok {
+			t = s.X
+		}
+		if id, ok := t.(*ast.Ident); ok {
+			return id.Name + "." + fd.Name.Name
+		}
+	}
+	return fd.Name.Name
+}
